@@ -268,7 +268,7 @@ def with_include(lines, run, fname="moved.s"):
 # ---- cases --------------------------------------------------------------------------------
 
 def bound(tier):
-    return ("12 base programs; every single edit; " + ("all unordered pairs of edits" if tier == "thorough" else
+    return ("12 base programs; every single edit; " + ("all unordered pairs of edits and all triples within a 3-line window" if tier == "thorough" else
             "all pairs within an 8-line window (all pairs for programs with <= 150 sites)") + "; every top-level run moved to an .include file, alone and "
             "combined with every in-line edit")
 
@@ -281,6 +281,9 @@ def cases(tier, seed):
             yield ("include", p, chunk)
         for chunk in range(48):
             yield ("pairs", p, chunk, tier)
+        if tier == "thorough":
+            for chunk in range(48):
+                yield ("triples", p, chunk)
 
 
 def describe(case, res):
@@ -355,6 +358,23 @@ def run_case(case):
                 el = apply_edits(lines, [e])
                 v2, moved2 = with_include(el, run)
                 try_variant(v2, {"moved.s": moved2}, "moved-to-include+" + e[2])
+            if len(viol) > 40:
+                break
+    elif kind == "triples":
+        # all unordered triples of edits within a 3-line window (thorough only)
+        chunk = case[2]
+        idx = 0
+        for a, b, c in itertools.combinations(range(len(edits)), 3):
+            ea, eb, ec = edits[a], edits[b], edits[c]
+            if max(ea[0], eb[0], ec[0]) - min(ea[0], eb[0], ec[0]) > 2:
+                continue
+            idx += 1
+            if idx % 48 != chunk:
+                continue
+            cols = [(e[0], e[1]) for e in (ea, eb, ec) if e[1] >= 0]
+            if len(set(cols)) != len(cols):
+                continue
+            try_variant(apply_edits(lines, [ea, eb, ec]), {}, "+".join(sorted((ea[2], eb[2], ec[2]))))
             if len(viol) > 40:
                 break
     else:
